@@ -33,7 +33,7 @@ REVIEWED = {
     'witness::Arguments::iter': (1, 'public iterator wrapper; no internal caller'),
     "<serde::WitnessMapSerializer<'a> as serde::Serialize>::serialize": (1, 'JSON serializer (serde configuration); not on the compile path'),
 }
-DENY = re.compile(r'(std::time::|SystemTime|Instant::now|RandomState::new|std::env::(var|vars|args)|std::thread::|rand::|getrandom|std::process::id|fmt::Pointer)')
+DENY = re.compile(r'(std::time::|SystemTime|Instant::now|RandomState|BuildHasher|::hasher$|hash_one|DefaultHasher|std::env::(var|vars|args)|std::thread::|rand::|getrandom|std::process::id|fmt::Pointer|::as_ptr$|addr_of)')
 
 
 def hash_sites(fx, crate='simfony'):
@@ -178,6 +178,8 @@ def r_clippy_crossref(ctx):
 
 
 def check(ctx):
+    from . import c04
+    c04.group_rule(ctx, 'R19.4', r'^debug::CallTracker::', 'marker id generation and tracking: full call traces (a marker depends only on the call counter)', 4)
     r_inventory(ctx)
     r_deny(ctx)
     r_cli(ctx)
